@@ -174,9 +174,14 @@ func runC01(c *core.Ctx, idx int) {
 		return
 	}
 	defer env.close()
-	st := env.sc.St(qx.Things)
-	g := &qx.Gen{R: r, W: env.w, Store: qx.Things}
-	all := env.w.Ids(qx.Things)
+	// most cases query the things store; every fourth one queries owners / others (dotted paths back through things)
+	store := qx.Things
+	if idx%4 == 3 {
+		store = []string{qx.Owners, qx.Others}[(idx/4)%2]
+	}
+	st := env.sc.St(store)
+	g := &qx.Gen{R: r, W: env.w, Store: store}
+	all := env.w.Ids(store)
 	nFilters := 60
 	mem := newMemWorld(env.w)
 	_ = env.db.View(func(tx *bbolt.Tx) error {
@@ -189,9 +194,9 @@ func runC01(c *core.Ctx, idx int) {
 			q := &qx.Query{Pred: e}
 			stream := q.Stream()
 			text := stream.Canon()
-			want, judged, why := env.w.Match(e, qx.Things)
+			want, judged, why := env.w.Match(e, store)
 			cells := map[string]bool{}
-			exprCells(e, env.w, qx.Things, cells)
+			exprCells(e, env.w, store, cells)
 			info := map[string]any{"query": text, "world": describeWorld(env.w)}
 			run := func(path string, f func() ([]string, error)) {
 				defer func() {
@@ -233,14 +238,14 @@ func runC01(c *core.Ctx, idx int) {
 				})
 			}
 			// package ast alone: the same text evaluated row by row over an in-memory Symbols implementation
-			if mq, merr := ast.Parse(mem.tables[qx.Things], text); merr == nil || judged {
+			if mq, merr := ast.Parse(mem.tables[store], text); merr == nil || judged {
 				run("ast.EvalBool over memsym", func() ([]string, error) {
 					if merr != nil {
 						return nil, merr
 					}
 					var ids []string
 					for _, id := range all {
-						if mq.EvalBool(mem.row(qx.Things, id, 3)) {
+						if mq.EvalBool(mem.row(store, id, 3)) {
 							ids = append(ids, id)
 						}
 					}
@@ -252,7 +257,7 @@ func runC01(c *core.Ctx, idx int) {
 				run("IterateIds", func() ([]string, error) {
 					return idsOf(st.Store.IterateIds(tx, parsed)), nil
 				})
-				if r.P(0.4) {
+				if r.P(0.4) && store == qx.Things {
 					vals := core.Subset(r, qx.NumTagPool, 0.4)
 					if len(vals) > 0 {
 						saved := want
@@ -292,7 +297,7 @@ func runC01(c *core.Ctx, idx int) {
 				if cmp, ok := e.(qx.Cmp); ok && cmp.L.Kind == "sym" && !strings.Contains(cmp.L.Sym, ".") {
 					// single comparison on a direct scalar: record whether a null operand was met
 					for _, id := range all {
-						if env.w.Rows[qx.Things][id].V[cmp.L.Sym] == nil {
+						if env.w.Rows[store][id].V[cmp.L.Sym] == nil {
 							for cell := range cells {
 								c.Cover("cell_with_null_operand", cell)
 							}
